@@ -36,6 +36,7 @@ class RTok(object):
         self.cdata_allowed = cdata_allowed or (lambda: False)
         self.q = []
         self.text = []
+        self.want_pieces = False
         self.done = False
         self.tmp = []
         self.ret = None
@@ -63,10 +64,47 @@ class RTok(object):
     def ch(self, c):
         self.text.append(c)
 
+    def ch_ref(self, c):
+        # output of a character reference: a token of its own in html5lib's tokenizer
+        self.text.append(("R", c))
+
     def flush(self):
         if self.text:
-            self.q.append(("chars", "".join(self.text)))
+            parts = self.text
             self.text = []
+            plain = "".join(p if isinstance(p, str) else p[1] for p in parts)
+            if self.want_pieces:
+                pieces = []
+                run = []
+
+                def close_run():
+                    r = "".join(run)
+                    del run[:]
+                    i, n = 0, len(r)
+                    while i < n:
+                        c = r[i]
+                        j = i + 1
+                        if c == "\x00":
+                            pass
+                        elif c in WS:
+                            while j < n and r[j] in WS:
+                                j += 1
+                        else:
+                            while j < n and r[j] != "\x00":
+                                j += 1
+                        pieces.append(r[i:j])
+                        i = j
+                for p in parts:
+                    if isinstance(p, str):
+                        run.append(p)
+                    else:
+                        close_run()
+                        if p[1]:
+                            pieces.append(p[1])
+                close_run()
+                self.q.append(("chars", plain, pieces))
+            else:
+                self.q.append(("chars", plain))
 
     def emit(self, tok):
         self.flush()
@@ -130,11 +168,21 @@ class RTok(object):
     def charref_in(self, in_attr):
         """'&' has just been consumed at pos-1; decode and append to the attribute value or emit as text."""
         t, j = charref.consume(self.s, self.pos - 1, in_attr)
+        if not in_attr and self.want_pieces and self.pos < self.n and self.s[self.pos] in charref.ALNUM:
+            # html5lib emits, as ONE character token, the replacement plus every further character it had consumed
+            # while the characters still formed a prefix of some entity name (token granularity only; same text)
+            a = self.pos
+            m = 0
+            while a + m < self.n and self.s[a:a + m + 1] in charref._PREFIXES:
+                m += 1
+            if a + m > j:
+                t = t + self.s[j:a + m]
+                j = a + m
         self.pos = j
         if in_attr:
             self.attr[1].append(t)
         else:
-            self.ch(t)
+            self.ch_ref(t)
 
     # ------------------------------------------------------------------ content states
     def s_data(self):
@@ -218,10 +266,10 @@ class RTok(object):
             self.back()
             self.state = "bogus_comment"
         elif c is None:
-            self.ch("<")
+            self.ch_ref("<")
             self.eof()
         else:
-            self.ch("<")
+            self.ch_ref("<")
             self.back()
             self.state = "data"
 
@@ -234,7 +282,7 @@ class RTok(object):
         elif c == ">":
             self.state = "data"
         elif c is None:
-            self.ch("</")
+            self.ch_ref("</")
             self.eof()
         else:
             self.comment = []
@@ -268,7 +316,7 @@ class RTok(object):
             self.tmp = []
             self.state = open_state
         else:
-            self.ch("<")
+            self.ch_ref("<")
             self.back()
             self.state = content_state
 
@@ -279,7 +327,7 @@ class RTok(object):
             self.back()
             self.state = name_state
         else:
-            self.ch("</")
+            self.ch_ref("</")
             self.back()
             self.state = content_state
 
@@ -300,7 +348,7 @@ class RTok(object):
                 self.tag_name.append(lower_ascii(c))
                 self.tmp.append(c)
                 continue
-            self.ch("</" + "".join(self.tmp))
+            self.ch_ref("</" + "".join(self.tmp))
             self.back()
             self.state = content_state
             return
